@@ -11,6 +11,8 @@ usage: mutsweep.py <work-dir> phase1|phase2 [workers]
 import json, os, subprocess, sys, threading, queue, shutil, time
 
 ENV = dict(os.environ, GOFLAGS="-mod=mod", GOPROXY="off", GOSUMDB="off", GOTOOLCHAIN="local")
+# the commit the sweep mutates: fixed for the whole sweep, whatever happens to /repo meanwhile
+BASE = os.environ.get("MUT_BASE") or subprocess.run(["git", "-C", "/repo", "rev-parse", "HEAD"], stdout=subprocess.PIPE).stdout.decode().strip()
 EXCL = ("path/peg.go", "test_utils", "/js/", "performance")
 
 def sh(cmd, cwd, timeout=900, env=ENV):
@@ -23,15 +25,16 @@ def sh(cmd, cwd, timeout=900, env=ENV):
 def worktree(work, k):
     d = os.path.join(work, f"wt{k}")
     if not os.path.isdir(d):
-        sh(f"git -C /repo worktree add --detach {d} HEAD", "/")
+        sh(f"git -C /repo worktree add --detach {d} {BASE}", "/")
     return d
 
 def mutants(work):
     f = os.path.join(work, "mutants.jsonl")
     if not os.path.exists(f):
-        rc, files = sh("git ls-files 'internal/**/*.go' 'pkg/**/*.go' 'cmd/**/*.go'", "/repo")
+        base = worktree(work, "base")
+        rc, files = sh("git ls-files 'internal/**/*.go' 'pkg/**/*.go' 'cmd/**/*.go'", base)
         fs = [x for x in files.split() if not x.endswith("_test.go") and not any(e in x for e in EXCL)]
-        rc, out = sh("/verif/bin/mutgen " + " ".join(fs), "/repo")
+        rc, out = sh("/verif/bin/mutgen " + " ".join(fs), base)
         open(f, "w").write(out)
     ms = [json.loads(l) for l in open(f) if l.startswith("{")]
     for i, m in enumerate(ms):
@@ -40,7 +43,7 @@ def mutants(work):
 
 def pristine(m):
     # committed content: /repo's working tree may carry a seeded patch while a sweep runs
-    return subprocess.run(["git", "-C", "/repo", "show", "HEAD:" + m["file"]], stdout=subprocess.PIPE).stdout
+    return subprocess.run(["git", "-C", "/repo", "show", BASE + ":" + m["file"]], stdout=subprocess.PIPE).stdout
 
 def apply(wt, m):
     p = os.path.join(wt, m["file"])
